@@ -4,17 +4,19 @@ MANIFEST = dict(
     category="other",
     text="Decided on the real bodies for bounded sizes: the ROC curve of every label pattern and every score order (scores symbolic, no ties) "
          "starts at (0,0), has one point per object in descending score order with coordinates count/total, is monotone and ends at (1,1), the precision-recall curve starts at (0,1), has non-decreasing recall ending at 1 with each point = (tp/positives, tp/(tp+fp)); "
+         "with the real trapezoid routine and class sizes 1 or 2 (exact instances) the ROC area equals the Mann-Whitney probability exactly for every score order, so it depends on the order only "
+         "(invariance under strictly increasing maps and under reordering; 1 - AUC under negation = the reversed order) and the precision-recall area lies in [0,1]; "
          "R2, MSE, RMSE, MAE and BIAS equal their formulas on exact instances (integer truths/predictions 0..3, 2 elements, total sum of squares a power of two: every intermediate is exactly representable, so the "
          "obligation is independent of the evaluation order; sqrt uninterpreted), with errors 0 and R2 = 1 for perfect prediction, and a missing-coded truth in any position is ignored (3 elements, one missing-coded: each figure equals its formula over the other two); "
          "the general-data form of the 'missing-coded truths are ignored' obligation for R2/MSE/MAE/BIAS (value equals the function on the vectors without that element) is only attempted in the thorough tier: no back end finished it within 15 minutes; the PLS "
          "statistic tables are R2/RMSE/BIAS applied per response and latent variable to the right columns with missing-coded rows removed.",
     note="Bounded: 2..3 objects for ROC (all patterns/orders enumerated), 3 elements for the missing-value obligation, 2..3 rows for the tables. "
-         "AUC = Mann-Whitney probability, invariance under monotone maps, 1-AUC under negation, MAE <= RMSE, R2 <= 1, RMSE^2 = MSE are "
-         "numerical/order-statistical identities over accumulated sums and are not decided; the area routine is an oracle.",
+         "Beyond 3 objects / class sizes 1-2 the AUC identity is not decided (thirds are not exactly representable); MAE <= RMSE, R2 <= 1 on general data are "
+         "numerical statements and not decided; in the ROC@ jobs the area routine is an oracle, in the AUC@ jobs it is the real routine.",
     technique="CBMC on the real ROC / R2 / MSE / MAE / BIAS / PLSRegressionStatistics bodies; enumerated label patterns and orders; oracle statistics for table wiring")
 
-META = dict(decided="R2/MSE/RMSE/MAE/BIAS == formulas on exact instances; ROC point sequence, endpoints and monotonicity; PLS statistic table wiring incl. removal of missing-coded rows",
-            not_decided="missing-coded truths ignored on general (not exactly representable) data (attempted, solver timeout); AUC = Mann-Whitney, monotone-map invariance, complement rule, MAE <= RMSE, R2 <= 1, RMSE^2 = MSE, precision-recall area",
+META = dict(decided="AUC == Mann-Whitney probability for every score order (class sizes 1-2); R2/MSE/RMSE/MAE/BIAS == formulas on exact instances; ROC point sequence, endpoints and monotonicity; PLS statistic table wiring incl. removal of missing-coded rows",
+            not_decided="missing-coded truths ignored on general (not exactly representable) data (attempted, solver timeout); AUC identity beyond 3 objects, MAE <= RMSE and R2 <= 1 on general data",
             trusted_base=["oracle area / statistics in harness/C15/stats.c"], assumptions=["scores without ties"])
 
 S = ["matrix.c", "vector.c", "memwrapper.c", "numeric.c", "interpolate.c"]
@@ -31,6 +33,16 @@ def jobs(tier):
                 J.append(Job("ROC@n=%d,labels=%d,perm=%d" % (n, labels, perm), "C15/stats.c", entry="h_ROC", srcs=S, kind="bounded", defines=d, unwind=n + 4,
                              functions=["ROC", "PrecisionRecall", "MatrixReverseSort"], bound="%d objects, label pattern %d, score order %d; score values symbolic" % (n, labels, perm),
                              clause="ROC point sequence: origin, one point per object by descending score, count/total coordinates, monotone, ends at (1,1)"))
+    for n in (2, 3):
+        nperm = 2 if n == 2 else 6
+        for labels in range(1, (1 << n) - 1):
+            for perm in range(nperm):
+                if tier == "quick" and n == 3 and (labels + perm) % 3:
+                    continue
+                d = {"VC_UNIT_ROC": None, "VC_REAL_AREA": None, "VC_N": n, "VC_LABELS": labels, "VC_PERM": perm}
+                J.append(Job("AUC@n=%d,labels=%d,perm=%d" % (n, labels, perm), "C15/stats.c", entry="h_ROC", srcs=S, kind="bounded", defines=d, unwind=n + 4,
+                             functions=["ROC", "PrecisionRecall", "curve_area"], bound="%d objects (class sizes 1 or 2: exact instances), label pattern %d, score order %d; score values symbolic" % (n, labels, perm),
+                             clause="AUC (real trapezoid routine) == Mann-Whitney probability exactly for this score order; hence invariant under strictly increasing maps / reordering, 1 - AUC under negation; PR area in [0,1]"))
     for k in (0, 1, 2):
         for which, nm in ((0, "MAE"), (1, "MSE"), (2, "R2"), (3, "BIAS")):
             if tier == "quick":
